@@ -188,7 +188,7 @@ class SympyBackend:
 
         symbols_in_expr = self.free_symbols_in(expr)
         restricted_replacements = [(symbols(old), new) for old, new in replacements.items() if old in symbols_in_expr]
-        expr = expr.subs(restricted_replacements)
+        expr = expr.subs(restricted_replacements, simultaneous=True)
         if functions_map is None:
             functions_map = {}
         for func_name, func in functions_map.items():
